@@ -357,7 +357,7 @@ def match_known(known, prop, cfg, kind):
             continue
         if k.get('entry') and k['entry'] != cfg.get('entry'):
             continue
-        if k['kind'] != kind:
+        if kind != k.get('kind') and kind not in k.get('kinds', []):
             continue
         if not set(k.get('tags', [])) <= tags:
             continue
